@@ -38,6 +38,9 @@ class SuperNet(DNAS):
         self._cost_fn_map = self._create_cost_fn_map()
         self.train_selection = True
         self.full_cost = full_cost
+        # qualified names of the choice blocks that still have a combiner (i.e., not exported yet)
+        self._sn_blocks = [name[:-len('sn_combiner')] for name, _, layer in self._unique_leaf_modules
+                           if isinstance(layer, SuperNetCombiner)]
 
     def forward(self, *args: Any) -> torch.Tensor:
         """Forward function for the DNAS model. Simply invokes the inner model's forward
@@ -178,12 +181,18 @@ class SuperNet(DNAS):
         for lname, node, layer in target_list:
             if isinstance(layer, SuperNetCombiner):
                 cost = cost + layer.get_cost(cost_spec, cost_fn_map)
-            elif 'sn_branches' not in str(node.target) and self.full_cost:
+            elif not self._in_sn_branch(str(node.target)) and self.full_cost:
                 # TODO: this is constant and can be pre-computed for efficiency
                 v = vars(layer)
                 v.update(shapes_dict(node))
                 cost = cost + cost_fn_map[lname](v)
         return cost
+
+    def _in_sn_branch(self, lname: str) -> bool:
+        """True if the layer belongs to a branch of a choice block that still has a combiner. The
+        cost of those layers is accounted for by the combiner; the layers of an already exported
+        block are ordinary fixed layers, although their names still contain `sn_branches`."""
+        return any(lname.startswith(block + 'sn_branches.') for block in self._sn_blocks)
 
     def _single_cost_fn_map(self, c: CostSpec) -> Dict[str, CostFn]:
         """SuperNet-specific creator of {layertype, cost_fn} maps based on a CostSpec."""
